@@ -701,6 +701,12 @@ func (b *bitstream) readNsecs(length uint64) (int, bool, uint8, error) {
 		return 0, false, 0, err
 	}
 
+	if d.Sign() < 0 {
+		// The fractional seconds have to be in [0, 1); a tiny negative fraction would round to zero below.
+		msg := fmt.Sprintf("invalid timestamp fraction: %v", d)
+		return 0, false, 0, &SyntaxError{msg, b.pos}
+	}
+
 	if d.scaleOf()-9 < -math.MaxInt32 {
 		// ShiftL would panic on an exponent this large; the fraction is far above 1 anyway.
 		msg := fmt.Sprintf("invalid timestamp fraction: %v", d)
